@@ -75,3 +75,41 @@ Proof.
   intros Ha Hb Hc. unfold read_text. cbn [decode]. rewrite (utf8_decode_app_some a b s t Ha Hb), Hb. cbn [option_map].
   rewrite (nl_read_app s t Hc). reflexivity.
 Qed.
+
+(* writing in pieces: a text handed to file.write in several pieces arrives as the encoding of the whole text - for utf-8 and
+   latin-1 piece by piece, for utf-16 at the level of code units (the byte order mark is written once, at the start of the
+   stream: CPython's incremental encoder keeps that bit of state, the model encodes the whole text) *)
+Definition oapp (x y : option (list Z)) : option (list Z) :=
+  match x, y with Some a, Some b => Some (a ++ b) | _, _ => None end.
+
+Theorem utf8_encode_app s t : utf8_encode (s ++ t) = oapp (utf8_encode s) (utf8_encode t).
+Proof.
+  induction s as [|c s IH]; cbn [app utf8_encode].
+  - destruct (utf8_encode t); reflexivity.
+  - destruct (scalar c); [|reflexivity]. rewrite IH.
+    destruct (utf8_encode s), (utf8_encode t); cbn [option_map oapp]; try reflexivity. rewrite app_assoc. reflexivity.
+Qed.
+
+Theorem units_encode_app s t : units_encode (s ++ t) = oapp (units_encode s) (units_encode t).
+Proof.
+  induction s as [|c s IH]; cbn [app units_encode].
+  - destruct (units_encode t); reflexivity.
+  - destruct (scalar c); [|reflexivity]. rewrite IH.
+    destruct (units_encode s), (units_encode t); cbn [option_map oapp]; try reflexivity. rewrite app_assoc. reflexivity.
+Qed.
+
+Theorem latin1_encode_app s t : latin1_encode (s ++ t) = oapp (latin1_encode s) (latin1_encode t).
+Proof.
+  unfold latin1_encode. rewrite forallb_app.
+  destruct (forallb _ s), (forallb _ t); reflexivity.
+Qed.
+
+Lemma bytes_le_app a b : bytes_le (a ++ b) = bytes_le a ++ bytes_le b.
+Proof. unfold bytes_le. apply flat_map_app. Qed.
+
+(* utf-16: one mark, then the units of the pieces one after the other *)
+Theorem utf16_encode_pieces s t a b : units_encode s = Some a -> units_encode t = Some b ->
+  utf16_encode (s ++ t) = Some (255 :: 254 :: bytes_le a ++ bytes_le b).
+Proof.
+  intros Ha Hb. unfold utf16_encode. rewrite units_encode_app, Ha, Hb. cbn [oapp option_map]. rewrite bytes_le_app. reflexivity.
+Qed.
